@@ -71,6 +71,11 @@ pub fn check_one(s: &[u8]) -> CaseResult {
     let representable = nul_pos_ok(s);
     let contents: Vec<u8> = if s.last() == Some(&0) { s[..s.len() - 1].to_vec() } else { s.to_vec() };
 
+    // ---- the length scan behind directory-entry names and utsname fields: index of the first NUL, or an error
+    let r = no_panic("buf_strlen", || rusl::string::strlen::buf_strlen(s).ok())?;
+    let want = s.iter().position(|&c| c == 0);
+    ensure!(r == want, "buf_strlen|wrong-length", "buf_strlen({inp}) = {r:?}, the first NUL is at {want:?}");
+
     // ---- owned constructors
     let r = no_panic("UnixString::try_from_bytes", || UnixString::try_from_bytes(s))?;
     match (&r, representable) {
